@@ -631,3 +631,7 @@ META = {
     'technique': 'static analysis: exhaustive ordering enumeration of interval predicates and clamp expressions, must-equality by value numbering along CFG paths, exactly-once path checks',
     'design_ref': 'DESIGN.md section 5, C17',
 }
+
+
+from . import shared as _shared
+_shared.register('C17', 'C17')
